@@ -545,3 +545,214 @@ class UseSpecSingleChoice(_UseSpec):
     member = z3.And(v.present, v.z >= 0, v.z < cands.len,
                     z3.If(NEL(chosen) == 0, ch.len == 0, z3.And(ch.len == NEL(chosen), each)))
     return z3.Not(member)
+
+
+# ---------------------------------------------------------------------------
+# DNA.from_fn(spec, fn): whatever the callback answers, the DNA handed out has
+# passed the validator of the spec it was asked for (so a callback cannot
+# smuggle a non-member into the library), and an index-list answer is turned
+# into exactly those choices with the sub-DNAs of the chosen candidates.
+#
+# One level, the recursive calls by the function's own contract (partial
+# correctness): a recursive `from_fn(sub, fn)` returns a DNA validated for
+# `sub`.  Variants: a space of e elements (e of any size), a categorical point
+# answered by a ready-made DNA or by an index list of length 0..2, any other
+# decision point answered by a DNA or a plain value.
+
+GB = 'pyglove.core.geno.base'
+REC = z3.Function('dna_from_fn_of', z3.IntSort(), z3.IntSort())   # sub-spec id -> DNA id (validated for it)
+
+
+@register
+class DNAFromFn(Contract):
+  prop = 'C11'
+  target = f'{GB}:DNA.from_fn'
+  name = 'DNA.from_fn'
+  variants = ('space', 'categorical/dna-answer', 'categorical/list-0', 'categorical/list-1', 'categorical/list-2',
+              'other/dna-answer', 'other/value-answer')
+  raises = {ValueError: (), TypeError: ()}
+  inline = (f'{GS}:Space.elements', f'{GC}:Choices.candidates', f'{GC}:Choices.num_choices')
+  pure = ('pyglove.core.geno.base:DNASpec.location',)
+
+  def inputs(self, b):
+    v = self.variant
+    self._answer = None
+    if v == 'space':
+      self._elems = absobj.ref_seq(b, 'elements', geno.Space)
+      s = SObj(geno.Space, {'is_space': True, 'is_categorical': False, 'elements': self._elems}, name='dna_spec')
+    elif v.startswith('categorical'):
+      self._cands = absobj.ref_seq(b, 'candidates', geno.Space)
+      s = SObj(geno.Choices, {'is_space': False, 'is_categorical': True, 'candidates': self._cands,
+                              'num_choices': b.int('num_choices'), 'location': SAny('location')}, name='dna_spec')
+      if v.endswith('dna-answer'):
+        self._answer = SObj(geno.DNA, {'value': SAny('v'), 'children': SAny('c')}, name='answer')
+      else:
+        k = int(v[-1])
+        self._answer = [b.choice(f'choice{i}_kind', [b.int(f'choice{i}'), 'not-an-int']) for i in range(k)]
+    else:
+      s = SObj(geno.Float, {'is_space': False, 'is_categorical': False}, name='dna_spec')
+      self._answer = (SObj(geno.DNA, {'value': SAny('v'), 'children': SAny('c')}, name='answer')
+                      if v.endswith('dna-answer') else b.int('plain_value'))
+    self._spec = s
+    self._fn = I.NativeFn(lambda interp, a, k: self._call_fn(interp, a))
+    return dict(cls=geno.DNA, dna_spec=s, generator_fn=self._fn), {}
+
+  def _call_fn(self, interp, a):
+    interp.path.event('ask', 'generator_fn', [interp.resolve(x) for x in a])
+    return self._answer
+
+  def setup_policy(self, policy):
+    me = self
+
+    def rec(interp, frame, args, kwargs):
+      a = [interp.resolve(x) for x in args]
+      sub = a[-2]
+      # induction hypothesis: the DNA REC(sub) has passed sub's validator
+      r = absobj.ref(geno.DNA, REC(absobj.ref_id(sub)), _dna_lazy)
+      interp.path.event('rec', 'DNA.from_fn', (sub, a[-1], r))
+      return r
+    policy.contracts[f'{GB}:DNA.from_fn'] = rec
+
+    def validate(interp, frame, args, kwargs):
+      sp, dna = interp.resolve(args[0]), interp.resolve(args[1])
+      interp.path.event('validate', 'validate', (sp, dna))
+      if interp.path.decide(2, 'validator-refuses') == 1:
+        raise I.PyRaise(ExcVal(ValueError, ('invalid',)))
+      return None
+    for q in (f'{GB}:DNASpec.validate', f'{GS}:Space.validate', f'{GC}:Choices.validate', f'{GN}:Float.validate'):
+      policy.contracts[q] = validate
+
+    def new_dna(interp, args, kwargs, frame):
+      a = list(args) + [None] * 2
+      r = SObj(geno.DNA, {'value': kwargs.get('value', a[0]), 'children': kwargs.get('children', a[1])}, name='new_dna')
+      interp.path.event('construct', 'DNA', r)
+      return r
+    policy.handlers[('new', geno.DNA)] = new_dna
+    policy.handlers[('new', pg.KeyPath)] = lambda interp, a, k, f: SAny('KeyPath')
+    policy.handlers[('identical',)] = absobj.identical_handler
+    # the loop over the elements of a space (any number of them): after i
+    # iterations `children` holds, in order, the DNAs of the first i elements
+    from pyvc import loops
+    loops.install(policy, 'DNA.from_fn', 0, self.inv_children_of_the_first_elements,
+                  havoc={'children': lambda b, name: absobj.ref_seq(b, name, geno.DNA, _dna_lazy)},
+                  name='elements-loop')
+
+  @direct
+  def inv_children_of_the_first_elements(self, interp, env):
+    ch = interp.resolve(env['children'])
+    i = interp.to_z3(env['i'])
+    elems = self._elems
+    if isinstance(ch, SSeq):
+      j = z3.Int('cj')
+      return z3.And(ch.len == i, z3.ForAll([j], z3.Implies(
+          z3.And(j >= 0, j < i), z3.Select(ch.arr, j) == REC(z3.Select(elems.arr, j)))))
+    ids = [absobj.ref_id(interp.resolve(x)) for x in ch]
+    if any(x is None for x in ids):
+      return z3.BoolVal(False)
+    return z3.And(i == len(ids), *[x == REC(z3.Select(elems.arr, k)) for k, x in enumerate(ids)])
+
+  def drive(self, interp, pyf, args, env, check):
+    # classmethod: call the underlying function with cls first
+    return interp.call_function(pyf, [geno.DNA, args['dna_spec'], args['generator_fn']], {})
+
+  def trace_result_passed_the_validator_of_the_asked_spec(self, events, outcome, interp, env):
+    if outcome[0] != 'return':
+      return True
+    r = interp.resolve(outcome[1])
+    for e in events:
+      if e.kind == 'validate' and e.data[0] is self._spec and e.data[1] is r:
+        return True
+    if self.variant == 'space' and absobj.ref_id(r) is not None:
+      # a space with exactly one element hands out that element's DNA, which the
+      # recursive call validated for the element (Space.validate with one element
+      # is the element's validator: contract Space.validate)
+      return z3.And(self._elems.len == 1, absobj.ref_id(r) == REC(z3.Select(self._elems.arr, 0)))
+    return False
+
+  def trace_callback_asked_once_with_the_spec(self, events, outcome, interp, env):
+    asks = [e for e in events if e.kind == 'ask']
+    if self.variant == 'space':
+      return not asks
+    if outcome[0] != 'return':
+      return len(asks) <= 1
+    return len(asks) == 1 and len(asks[0].data) == 1 and asks[0].data[0] is self._spec
+
+  def trace_answer_is_what_is_handed_out(self, events, outcome, interp, env):
+    """A DNA answer is handed out itself; a plain value becomes DNA(value); an
+    index list becomes DNA(None, [DNA(i, [from_fn(candidates[i])]) ...])."""
+    if outcome[0] != 'return':
+      return True
+    r = interp.resolve(outcome[1])
+    if self.variant == 'space':
+      # DNA(None, [from_fn(e) for e in elements]) -- or that single DNA itself
+      if absobj.ref_id(r) is not None:
+        return True          # the single-element case is the validator clause
+      ch = interp.resolve(r.fields['children']) if isinstance(r, SObj) else None
+      if not isinstance(ch, SSeq) or r.fields['value'] is not None:
+        return False
+      j = z3.Int('rj')
+      return z3.And(ch.len == self._elems.len, z3.ForAll([j], z3.Implies(
+          z3.And(j >= 0, j < ch.len), z3.Select(ch.arr, j) == REC(z3.Select(self._elems.arr, j)))))
+    if self.variant.endswith('dna-answer'):
+      return r is self._answer
+    if self.variant == 'other/value-answer':
+      return isinstance(r, SObj) and interp.resolve(r.fields['value']) is self._answer
+    k = int(self.variant[-1])
+    ch = [interp.resolve(c) for c in interp.iterate(r.fields['children'], None)] if isinstance(r, SObj) else None
+    recs = [e for e in events if e.kind == 'rec']
+    if ch is None or len(ch) != k or len(recs) != k or r.fields['value'] is not None:
+      return False
+    zs = []
+    for i in range(k):
+      want = interp.resolve(self._answer[i])
+      c = ch[i]
+      if not isinstance(c, SObj) or interp.resolve(c.fields['value']) is not want:
+        return False
+      sub_children = [interp.resolve(x) for x in interp.iterate(c.fields['children'], None)]
+      if len(sub_children) != 1 or absobj.ref_id(sub_children[0]) is None:
+        return False
+      zi = interp.to_z3(want)
+      zs.append(z3.And(zi >= 0, zi < self._cands.len,
+                       absobj.ref_id(sub_children[0]) == REC(z3.Select(self._cands.arr, zi))))
+    return z3.And(*zs) if zs else True
+
+  # native search: callbacks that answer with non-members
+  def small_models(self):
+    from pyvc.contracts import Model
+    yield Model({}, {})
+
+  def replay(self, obligation, m):
+    bad = []
+    if 'answer_is_what' in obligation:
+      # index-list / value answers on spaces of 1..3 points, nested candidates
+      sp3 = pg.dna_spec(pg.Dict(x=pg.oneof(['a', 'b']), y=pg.oneof([1, pg.oneof([2, 3])]), z=pg.floatv(0.0, 1.0)))
+      def answer(s):
+        return 0.5 if isinstance(s, geno.Float) else [len(s.candidates) - 1] * s.num_choices
+      for name, sp, want in (('three points', sp3, pg.DNA([1, (1, 1), 0.5])),
+                             ('one point', pg.dna_spec(pg.oneof(['a', 'b'])), pg.DNA(1)),
+                             ('manyof', pg.dna_spec(pg.manyof(2, ['a', 'b', 'c'], distinct=False)), pg.DNA([2, 2]))):
+        try:
+          got = pg.DNA.from_fn(sp, answer)
+        except Exception as e:  # pylint: disable=broad-except
+          got = f'{type(e).__name__}: {e}'
+        if got != want:
+          bad.append(f'{name}: from_fn with last-candidate answers gave {got!r}, want {want!r}')
+      return dict(outcome='reproduced' if bad else 'not-reproduced', detail='; '.join(bad) or 'answers become the DNA')
+    cases = [
+        ('root manyof, duplicate DNA', pg.dna_spec(pg.manyof(2, ['a', 'b', 'c'])), lambda s: pg.DNA([0, 0])),
+        ('root oneof, out-of-range DNA', pg.dna_spec(pg.oneof(['a', 'b'])), lambda s: pg.DNA(5)),
+        ('oneof in a dict, out-of-range DNA', pg.dna_spec(pg.Dict(x=pg.oneof(['a', 'b']))), lambda s: pg.DNA(5)),
+        ('float, out-of-range DNA', pg.dna_spec(pg.floatv(0.0, 1.0)), lambda s: pg.DNA(7.0)),
+        ('two points, out-of-range DNA', pg.dna_spec(pg.Dict(x=pg.oneof(['a', 'b']), y=pg.oneof([1, 2]))),
+         lambda s: pg.DNA(9)),
+    ]
+    for name, sp, fn in cases:
+      try:
+        d = pg.DNA.from_fn(sp, fn)
+      except (ValueError, TypeError):
+        continue
+      try:
+        sp.validate(d)
+      except Exception as e:  # pylint: disable=broad-except
+        bad.append(f'{name}: from_fn handed out {d!r}, which the spec refuses ({type(e).__name__})')
+    return dict(outcome='reproduced' if bad else 'not-reproduced', detail='; '.join(bad) or 'every DNA handed out is a member')
